@@ -277,10 +277,12 @@ class WriterCheck:
                     continue
                 diffs.append(a.z() != b.z())
             if bad_prefix:
-                viol.append(dict(base, kind='sink-order', detail='bytes written earlier are not delivered first', model=None))
+                st, mdl = self.ob.refute(p['pc'], [])
+                viol.append(dict(base, kind='sink-order', detail='bytes written earlier are not delivered first', model=self.model_vals(mdl, rec)))
                 continue
             if not z3.is_false(z3.simplify(rec['end_after'].z() != 0)):
-                viol.append(dict(base, kind='not-flushed', detail='buffer not empty after the final flush/drop', model=None))
+                st, mdl = self.ob.refute(p['pc'], [])
+                viol.append(dict(base, kind='not-flushed', detail='buffer not empty after the final flush/drop', model=self.model_vals(mdl, rec)))
                 continue
             for x, n, bs in groups.values():
                 W = x.size() + 8
